@@ -287,6 +287,31 @@ def body_exec_big(E, flavour, n, mode, base):
         return ok and ex.ran == n and not ex._pending
 
 
+def body_two_sweeps(E, base, order):
+    """two sweeps in one process over grids whose values are equal (==, same hash) but of different type
+    (1 / 1.0, 0 / False): each sweep calls the function with its own values and files its own results"""
+    grids = [{"a": [1, 2], "b": [0, 1, 3]}, {"a": [1.0, 2.0], "b": [False, True, 3.0]}]
+    if cbool(order):
+        grids.reverse()
+    with E():
+        for g in grids:
+            log = []
+
+            def fn(a, b):
+                log.append((type(a).__name__, type(b).__name__))
+                return (base, type(a).__name__, a, type(b).__name__, b)
+
+            out = combo_runner(fn, g, verbosity=0)
+            want = [(type(a).__name__, type(b).__name__) for a in g["a"] for b in g["b"]]
+            if log != want:
+                return False
+            for i, a in enumerate(g["a"]):
+                for j, b in enumerate(g["b"]):
+                    if out[i][j] != (base, type(a).__name__, a, type(b).__name__, b):
+                        return False
+        return True
+
+
 def body_badexec(E):
     """an executor without submit/apply_async is rejected with TypeError"""
     with E():
@@ -367,6 +392,11 @@ CONDS = [
                "0 <= j1 <= 1 and 0 <= j2 <= 2 and 0 <= j3 <= 3"], timeout=150,
               bounds="executor= submit-style / apply_async(*args)-style / multiprocessing.pool.Pool subclass; "
                      "N<=4 tasks, every completion order; nested/split/flat"),
+    make_cond(_G, "two_sweeps", body_two_sweeps, "base:int order:bool", [], timeout=120,
+              bounds="two successive sweeps in one process over 2x3 grids with equal-but-differently-typed values "
+                     "(int / float / bool), either order: each call receives the values of its own grid (state kept "
+                     "between sweeps - caches keyed by equality - shows only in the plain run of an instance: "
+                     "CrossHair by-passes functools.lru_cache)"),
     make_cond(_G, "exec_big", body_exec_big, "flavour:int n:int mode:int base:int",
               ["0 <= flavour <= 2 and 0 <= mode <= 2", "n == 33 or n == 40 or n == 65"], timeout=300,
               bounds="33, 40 (20x2) and 65 tasks through each executor flavour, completion in submission order: "
